@@ -137,4 +137,36 @@ def MultiTag.featureDataBy (t : MTagDesc) (feats : List FeatEnt) (posidx : Nat) 
       | none => .error .indexError
       | some f => MultiTag.featureData t feats.length posidx f.link f.data stop
 
+/-! ## calls without `stop_rule`, and the deprecated `retrieve_*` wrappers
+
+The default of `stop_rule` is read from the generated table of method signatures; a method without a default could
+not be called without the argument (`TypeError`).  The wrappers `retrieve_data` / `retrieve_feature_data` return the
+call recorded in `Gen.retrieveWrappers`: the same method with the same arguments and no stop rule. -/
+
+/-- the default `stop_rule` of a public method, by its signature in `Gen.defaultStopRules` -/
+def defaultStop? (signature : String) : Option SliceMode :=
+  (Gen.defaultStopRules.lookup signature).map sliceModeNamed
+
+def withDefaultStop (signature : String) (f : SliceMode → Except Err View) : Except Err View :=
+  match defaultStop? signature with
+  | some m => f m
+  | none => .error .typeError
+
+/-- `Tag.tagged_data(refidx)` = `Tag.retrieve_data(refidx)` -/
+def Tag.retrieveData (t : TagDesc) (refs : List RefEnt) (key : Key) : Except Err View :=
+  withDefaultStop "Tag.tagged_data(refidx, stop_rule)" (Tag.taggedDataBy t refs key)
+
+/-- `Tag.feature_data(featidx)` = `Tag.retrieve_feature_data(featidx)` -/
+def Tag.retrieveFeatureData (t : TagDesc) (feats : List FeatEnt) (key : Key) : Except Err View :=
+  withDefaultStop "Tag.feature_data(featidx, stop_rule)" (Tag.featureDataBy t feats key)
+
+/-- `MultiTag.tagged_data(posidx, refidx)` = `MultiTag.retrieve_data(posidx, refidx)` -/
+def MultiTag.retrieveData (t : MTagDesc) (refs : List RefEnt) (posidx : Nat) (key : Key) : Except Err View :=
+  withDefaultStop "MultiTag.tagged_data(posidx, refidx, stop_rule)" (MultiTag.taggedDataBy t refs posidx key)
+
+/-- `MultiTag.feature_data(posidx, featidx)` = `MultiTag.retrieve_feature_data(posidx, featidx)` -/
+def MultiTag.retrieveFeatureData (t : MTagDesc) (feats : List FeatEnt) (posidx : Nat) (key : Key) :
+    Except Err View :=
+  withDefaultStop "MultiTag.feature_data(posidx, featidx, stop_rule)" (MultiTag.featureDataBy t feats posidx key)
+
 end Nix.Tagging
